@@ -70,5 +70,5 @@ def parse(text):
         return parser.BQLParser().parse(text, semantics=BQLSemantics())
     except tatsu.exceptions.ParseError as exc:
         line = exc.tokenizer.line_info(exc.pos).line if exc.tokenizer.text else 0
-        parseinfo = tatsu.infos.ParseInfo(exc.tokenizer, exc.item, exc.pos, exc.pos + 1, line, [])
+        parseinfo = tatsu.infos.ParseInfo(exc.tokenizer, exc.item, exc.pos, min(exc.pos + 1, len(exc.tokenizer.text)), line, [])
         raise ParseError(parseinfo) from exc
